@@ -354,6 +354,31 @@ func propC17(t *rapid.T, e *Env) {
 	if below || repeated {
 		e.Res.Nontriv(on.String() + describe(rc, x))
 	}
+	// ---- a hook that returns a nil attr.Value: exactly that is stored, over whatever the attribute held
+	if len(customs) > 0 && rapid.Bool().Draw(t, "nilresults") {
+		support.NilResults = true
+		support.ResetCalls()
+		d, p := rc.CopyTo(x, &tobj)
+		support.NilResults = false
+		if p != "" {
+			e.Fail(t, "C17 Copy%sToTerraform panicked when the CopyTo hooks return nil: %s", rc.M.Name, p)
+		}
+		_ = d
+		after := ToNode(tobj)
+		for _, ab := range rc.B.Attrs {
+			if ab.A.Custom == nil {
+				continue
+			}
+			if _, ok := ab.Get(x.Elem()); !ok {
+				continue
+			}
+			an, present := after.Attrs[ab.A.Name]
+			if !present || an.Kind != "raw" || an.Raw != nil {
+				e.Fail(t, "C17 CopyTo%s returned nil but attribute %s holds %s instead of the returned value", ab.A.Custom.Suffix, ab.A.Name, an.String())
+			}
+		}
+		e.Res.Class("hook_returns_nil")
+	}
 	e.Res.Sample(fmt.Sprintf("%d custom fields in %s; object %s", len(customs), rc.M.Name, on.String()))
 	_ = attr.Value(nil)
 }
